@@ -99,7 +99,7 @@ def validate(traces, jobs=16, batch=None, cfg=None, module='FBTrace.tla', timeou
         raise TlcError('duplicate trace ids')
     groups = {}
     for t in traces:      # one configuration constant per cache path
-        groups.setdefault('CP_CK' if t.get('cache') == ['c', 'k'] else 'CP_K', []).append(t)
+        groups.setdefault({('c', 'k'): 'CP_CK', ('c', 'c2', 'k'): 'CP_CCK'}.get(tuple(t.get('cache') or ()), 'CP_K'), []).append(t)
     chunks = []
     for cp, ts in groups.items():
         b = batch or max(1, (len(ts) + jobs - 1) // jobs)
